@@ -441,4 +441,7 @@ def eval_function(func: ast.AST, env: Dict[str, Any], depth: int = 0, want_env: 
         block(func.body)
     except _Ret as r:
         return local if want_env else r.v
+    except _Raised as r:
+        r.env = dict(local)  # type: ignore[attr-defined]  # the bindings made before the raise
+        raise
     return local if want_env else None
